@@ -261,6 +261,13 @@ def construct_topology_config(topology, nodes):
         return None
 
 
+def _random_tree(nn):
+    """A uniformly random tree on the vertices 0..nn-1 (nx.random_tree was removed in networkx 3.4)"""
+    if hasattr(nx, "random_tree"):
+        return nx.random_tree(nn)
+    return nx.random_labeled_tree(nn)
+
+
 def get_random_tree(nodes):
     """
     Constructs a dictionary describing a random tree, with the name of the vertices are taken from the 'nodes'
@@ -270,7 +277,7 @@ def get_random_tree(nodes):
     :return: dct
         keys are the names of the nodes and values their neighbors
     """
-    tree = nx.random_tree(len(nodes))
+    tree = _random_tree(len(nodes))
 
     # Construct mapping to relabel nodes
     mapping = {i: nodes[i] for i in range(len(nodes))}
@@ -300,7 +307,7 @@ def get_random_connected(nodes, nr_edges):
     if (nr_edges < min_edges) or (nr_edges > max_edges):
         raise ValueError("Number of edges cannot be less than #vertices-1 or greater then #vertices * (#vertices-1)/2")
 
-    G = nx.random_tree(nn)
+    G = _random_tree(nn)
 
     non_edges = list(nx.non_edges(G))
 
